@@ -207,9 +207,37 @@ def compact_inputs(rng):
         yield [rng.choice(pool) for _ in range(k)]
 
 
+def inputs_from_model(model):
+    """A compact input built from a lemma counter-model: the sibling group of the first child c plus the cell y."""
+    s = _s()
+    from a5.core.origin import origins
+    try:
+        c = dict(origin=origins[model["c_o"]], segment=model["c_g"], S=model["c_S"], resolution=model["c_r"])
+        y = dict(origin=origins[model["y_o"]], segment=model["y_g"], S=model["y_S"], resolution=model["y_r"])
+        cid, yid = s.serialize(c), s.serialize(y)
+    except Exception:
+        return []
+    r = model["c_r"]
+    if r < 0:
+        return []
+    sibs = s.cell_to_children(s.cell_to_parent(cid, r - 1), r)
+    out = [sibs + [yid], [yid] + list(reversed(sibs))]
+    if r >= 1:
+        # the whole face around the group, so that the merged parent has to merge again
+        face = s.cell_to_parent(cid, 0)
+        rest = [x for x in s.cell_to_children(face, 1) if x != s.cell_to_parent(cid, 1)] if r >= 2 else []
+        out.append(sibs + rest + [yid])
+    return out
+
+
 def r_compact(model, payload):
     rng = random.Random(0)
     tried = 0
+    for cells in inputs_from_model(model or {}):
+        tried += 1
+        f = compact_failures(cells, want_c09=payload.get("c09", True))
+        if f:
+            return {"confirmed": True, "input": {"cells": [hex(c) for c in cells]}, "observed": f[:4], "from_model": True}
     want_c09 = payload.get("property", "C08") != "C08only"
     for cells in compact_inputs(rng):
         tried += 1
